@@ -1795,6 +1795,12 @@ Error query_features(Arch arch, const BaseInst& inst, const Operand_* operands, 
           use_evex |= uint32_t(op_count >= 2 && operands[0].is_vec256());
           break;
 
+        // Special case: VCVTNEPS2BF16 with a 256-bit destination has a 512-bit source (ZMM or m512), which is only
+        // provided by EVEX regardless of a {vex} hint.
+        case Inst::kIdVcvtneps2bf16:
+          use_evex |= uint32_t(op_count >= 2 && operands[0].is_vec256());
+          break;
+
         case Inst::kIdVgatherdpd:
         case Inst::kIdVgatherdps:
         case Inst::kIdVgatherqpd:
